@@ -85,7 +85,9 @@ type FuncContract struct {
 	LoopHints    map[int][]*Clause
 	ErrExit      map[int]*Clause // loop ordinal -> ErrDecimal local that must be clean whenever the loop iterates again
 	Hints        []*Clause       // ground lemma instances / extra facts to be proved then assumed at entry? (proved as obligations first)
-	Outs         []string        // destination parameters (for F2)
+	Outs         []string        // destination parameters (class D: defined before read, fully written)
+	Reads        []Expr          // restricts which fields of an operand are read (class D)
+	OutsWhen     *Clause         // condition (over the post state) under which the destinations are fully written
 	Operands     []string
 	Defines      []Expr // leaves always defined by the function
 	NoBody       bool
@@ -441,7 +443,7 @@ var clauseKW = map[string]bool{
 	"func": true, "requires": true, "ensures": true, "assigns": true, "nilable": true, "fresh": true,
 	"trusted": true, "layer": true, "loop": true, "props": true, "define": true, "lemma": true,
 	"global": true, "outs": true, "operands": true, "defines": true, "hint": true, "pure": true,
-	"allocates": true, "sample": true, "exported": true, "axiom": true, "local": true, "reveal": true, "assert": true, "using": true, "delegates": true,
+	"allocates": true, "sample": true, "reads": true, "exported": true, "axiom": true, "local": true, "reveal": true, "assert": true, "using": true, "delegates": true,
 }
 
 var tagRe = regexp.MustCompile(`^\{([A-Za-z0-9_,\- ]*)\}\s*`)
@@ -581,8 +583,22 @@ func ParseSpecFile(path string) (*Spec, error) {
 				for _, t := range strings.FieldsFunc(rest, func(r rune) bool { return r == ',' || r == ' ' }) {
 					cur.Nilable[t] = true
 				}
+			case "reads":
+				// reads p.F, p.G: of the operand *p only the listed fields are read; the others are poison
+				// at entry (class D) and need not be defined at call sites
+				for _, part := range splitTop(rest) {
+					cur.Reads = append(cur.Reads, mustExpr(part, l.no))
+				}
 			case "outs":
-				cur.Outs = strings.FieldsFunc(rest, func(r rune) bool { return r == ',' || r == ' ' })
+				// outs d[, e] [when COND]: the old contents of *d are never read (unless d is also an operand) and
+				// every field of *d is written before each return (on which COND holds)
+				names := rest
+				if i := strings.Index(rest, " when "); i >= 0 {
+					names = rest[:i]
+					w := rest[i+6:]
+					cur.OutsWhen = &Clause{Kind: "outs-when", E: mustExpr(w, l.no), Src: w}
+				}
+				cur.Outs = strings.FieldsFunc(names, func(r rune) bool { return r == ',' || r == ' ' })
 			case "operands":
 				cur.Operands = strings.FieldsFunc(rest, func(r rune) bool { return r == ',' || r == ' ' })
 			case "local":
